@@ -4,7 +4,7 @@ From Coq Require Import List ZArith Bool Reals Permutation QArith.
 Set Default Timeout 120.
 Import ListNotations.
 From FV.C20 Require Import Model ModelReindex ModelEdge ProofsCanon ProofsMerge ProofsVol ProofsTransfer
-  ProofsCheck ProofsReindex ProofsExtra ProofsReindexVol ProofsEdge ProofsEdgeVol Harness.
+  ProofsCheck ProofsReindex ProofsExtra ProofsReindexVol ProofsEdge ProofsEdgeVol ProofsEdgeSeq Harness.
 
 (* ---- merge step (merge_polyhedrons on one connected group) -------------
    hypothesis wf_poly: faces have >= 3 pairwise distinct nodes and every
@@ -208,9 +208,41 @@ Proof.
   vm_compute. repeat split; reflexivity.
 Qed.
 
+(* ---- sequences of edge removals (remove_edges between two shrinks) ------
+   a cell is replaced by the result of an accepted step and left unchanged by a
+   refused one; if every ACCEPTED step fuses coplanar faces, the cell keeps its
+   balance and its volume, and so does the whole mesh *)
+Theorem C20_remove_edge_sequence : forall (pos : Z -> V3 R) steps p,
+  wf_poly p -> steps_planar pos p steps ->
+  wf_poly (apply_steps p steps) /\ vol ROps pos (apply_steps p steps) = vol ROps pos p.
+Proof. exact remove_edge_sequence. Qed.
+
+Theorem C20_remove_edges_total_volume : forall (pos : Z -> V3 R) (cs : list (poly * list (Z * Z))),
+  Forall (fun c => wf_poly (fst c) /\ steps_planar pos (fst c) (snd c)) cs ->
+  total_vol ROps pos (map (fun c => apply_steps (fst c) (snd c)) cs) = total_vol ROps pos (map fst cs) /\
+  Forall wf_poly (map (fun c => apply_steps (fst c) (snd c)) cs).
+Proof. exact remove_edges_total_volume. Qed.
+
+(* non-vacuity: on the split-top cube the sequence [4-6 (accepted, coplanar);
+   4-6 again (no such edge any more: accepted, cell unchanged)] satisfies the
+   hypothesis and ends in the 6-face cube *)
+Example C20_example_sequence :
+  let p := [[4;5;6]; [4;6;7]; [5;4;0;1]; [6;5;1;2]; [7;6;2;3]; [4;7;3;0]; [3;2;1;0]]%Z in
+  steps_planar ex_cube_pos p [(4, 6); (4, 6)]%Z /\
+  apply_steps p [(4, 6); (4, 6)]%Z = [[5;4;0;1]; [6;5;1;2]; [7;6;2;3]; [4;7;3;0]; [3;2;1;0]; [4;5;6;7]]%Z.
+Proof.
+  intros p. split; [|vm_compute; reflexivity].
+  split; [intros _; exists (0, 0, 1)%R; apply planar_flat; intros v Hv; vm_compute in Hv;
+          repeat (destruct Hv as [<- | Hv]; [reflexivity|]); destruct Hv|].
+  split; [|exact I].
+  intros _. exists (0, 0, 1)%R. apply planar_flat. intros v Hv. vm_compute in Hv. destruct Hv.
+Qed.
+
 Print Assumptions C20_merge_closed.
 Print Assumptions C20_merge_volume.
 Print Assumptions C20_sum_conserves_total.
 Print Assumptions C20_remove_one_edge_edges.
 Print Assumptions C20_remove_one_edge_wf.
 Print Assumptions C20_remove_one_edge_volume.
+Print Assumptions C20_remove_edge_sequence.
+Print Assumptions C20_remove_edges_total_volume.
